@@ -550,7 +550,7 @@ fn c17(keep: Option<PathBuf>) {
     let fake = test_helpers::fake_leaf::build_fake_leaf_circuit_data_only();
     let fake_v: VData = fake.verifier_data();
     let (fk_c, fk_v) = vdata_bytes(&fake_v);
-    let flips = if thorough { 4000 } else { 120 };
+    let flips = if thorough { 2000 } else { 120 };
 
     // --- 1701 / 1702 : verifier crate
     let oc = [("zk-config", zk_c.clone()), ("fake-leaf", fk_c.clone()), ("pb-common", canon.pb[&1].0.clone()), ("leaf-vo", vc_v.clone())];
@@ -589,7 +589,7 @@ fn c17(keep: Option<PathBuf>) {
             cases.push((1702, tag, vec![mv, seg_bytes(&bv), mc, seg_bytes(&bc), seg_bytes(&keccak(&bv)), seg_bytes(&keccak(&bc)), seg_bytes(&pin_v), seg_bytes(&pin_c), vec![1]], out));
         };
         let full = |b: &Vec<u8>| Some((b.len() as u64, b.clone()));
-        let step = if thorough { 1 } else { 9 };
+        let step = if thorough { 4 } else { 9 };
         for (i, (tag, c, v)) in cands.iter().enumerate() {
             if i % step == 0 {
                 file_case(format!("files:{tag}"), full(v), full(c), &mut cases);
@@ -624,7 +624,7 @@ fn c17(keep: Option<PathBuf>) {
     // --- 1703: aggregator leaf pin (every call rebuilds the leaf circuit)
     let oc = [("zk-config", zk_c.clone()), ("fake-leaf", fk_c.clone()), ("pb-common", canon.pb[&1].0.clone())];
     let ov = [("zk-config", zk_v.clone()), ("fake-leaf", fk_v.clone()), ("pb-vo", canon.pb[&1].1.clone())];
-    let cands = pair_candidates(&mut r, &canon.leaf_c, &canon.leaf_v, &oc, &ov, if thorough { 4000 } else { 40 });
+    let cands = pair_candidates(&mut r, &canon.leaf_c, &canon.leaf_v, &oc, &ov, if thorough { 1000 } else { 40 });
     let outs: Vec<Vec<i128>> = cands.par_iter().map(|(_, c, v)| cls17(no_panic(|| au::load_canonical_leaf_verifier_data(c, v)))).collect();
     for ((tag, c, v), out) in cands.iter().zip(outs) {
         cases.push((1703, tag.clone(), vec![seg_bytes(c), seg_bytes(v), seg_bytes(&canon.leaf_c), seg_bytes(&canon.leaf_v)], out));
@@ -636,7 +636,7 @@ fn c17(keep: Option<PathBuf>) {
         let mut ov: Vec<(&str, Vec<u8>)> = alt_pb.iter().map(|(t, _, v)| (*t, v.clone())).collect();
         oc.push(("leaf-common", canon.leaf_c.clone()));
         ov.push(("leaf-vo", canon.leaf_v.clone()));
-        let mut cands: Vec<(String, Vec<u8>, Vec<u8>, usize)> = pair_candidates(&mut r, c1, v1, &oc, &ov, if thorough { 200 } else { 1 }).into_iter().map(|(t, c, v)| (t, c, v, 1usize)).collect();
+        let mut cands: Vec<(String, Vec<u8>, Vec<u8>, usize)> = pair_candidates(&mut r, c1, v1, &oc, &ov, if thorough { 3 } else { 1 }).into_iter().map(|(t, c, v)| (t, c, v, 1usize)).collect();
         if !thorough {
             // every call rebuilds the private-batch circuit (tens of CPU-seconds): the canonical pair and a seeded sample of 3
             let canonical = cands.remove(0);
@@ -669,7 +669,7 @@ fn c17(keep: Option<PathBuf>) {
     let cap = au::MAX_ARTIFACT_FILE_BYTES;
     let mut scen: Vec<Scenario> = Vec::new();
     let nf = if thorough { 12 } else { 2 };
-    let nh = if thorough { 6 } else { 2 };
+    let nh = 2;
     let cfg_json = |n: usize, m: Option<usize>| -> Vec<u8> {
         match m {
             Some(m) => format!("{{\"num_leaf_proofs\": {n}, \"num_private_batch_proofs\": {m}}}").into_bytes(),
@@ -724,7 +724,7 @@ fn c17(keep: Option<PathBuf>) {
             add(1, "config:n2-with-n1-artifacts".into(), vec![Op::Set("config.json", cfg_json(2, Some(1)))], vec![]);
             add(1, "template:garbage".into(), vec![Op::Set("dummy_private_batch_proof.bin", vec![7u8; 1000])], vec![]);
         }
-        for (t, o) in sample_heavy(&pb_files, if thorough { usize::MAX } else { 1 }, &mut r).iter().chain(cfg_ops.iter()) {
+        for (t, o) in sample_heavy(&pb_files, if thorough { 10 } else { 1 }, &mut r).iter().chain(cfg_ops.iter()) {
             add(1, t.clone(), o.clone(), vec![]);
         }
         // 2: PublicBatchAggregator
@@ -739,7 +739,7 @@ fn c17(keep: Option<PathBuf>) {
             add(2, "leaf-artifacts-garbage(unused)".into(), vec![Op::Set("common.bin", vec![1, 2, 3]), Op::Remove("verifier.bin")], vec![]);
         }
         add(2, "config:no-private-batch-count".into(), vec![Op::Set("config.json", cfg_json(1, None))], vec![]);
-        for (t, o) in sample_heavy(&pb_files, if thorough { usize::MAX } else { 0 }, &mut r).iter().chain(sample_heavy(&pub_files, if thorough { usize::MAX } else { 2 }, &mut r).iter()).chain(cfg_ops.iter()) {
+        for (t, o) in sample_heavy(&pb_files, if thorough { 8 } else { 0 }, &mut r).iter().chain(sample_heavy(&pub_files, if thorough { 12 } else { 2 }, &mut r).iter()).chain(cfg_ops.iter()) {
             add(2, t.clone(), o.clone(), vec![]);
         }
         // 3: generate_private_batch_circuit_binaries(dir, n, false)
@@ -759,7 +759,7 @@ fn c17(keep: Option<PathBuf>) {
         }
         add(4, "m0".into(), vec![], vec![0, 1]);
         add(4, "m65".into(), vec![], vec![65, 1]);
-        for (t, o) in sample_heavy(&pb_files, if thorough { usize::MAX } else { 1 }, &mut r).iter() {
+        for (t, o) in sample_heavy(&pb_files, if thorough { 8 } else { 1 }, &mut r).iter() {
             add(4, t.clone(), o.clone(), vec![1, 1]);
         }
     }
